@@ -359,6 +359,15 @@ def check_drg(ctx, P):
                 buf = pred.canon(fn.expr(c.args[1]), fn)
                 if g in ("fill_bytes", "fill_slice"):
                     whole = buf == "arg2"
+                elif g in ("u32", "u64"):
+                    # the draw inlined: a local [u8; N] filled in one request and converted whole
+                    want = {"u32": 4, "u64": 8}[g]
+                    conv = [k for k in fn.calls() if re.search(r"::from_(be|le|ne)_bytes$", k.name()) and pred.canon(fn.expr(k.args[0]), fn) == buf and fn.dominates(c.bb, k.bb)]
+                    e = fn.expr(c.args[1])
+                    while isinstance(e, tuple) and e[0] in ("cast", "ref", "deref"):
+                        e = e[2] if e[0] in ("cast", "ref") else e[1]
+                    ty = fn.locals[e[1]] if e[0] == "var" and isinstance(e[1], int) and e[1] < len(fn.locals) else ""
+                    whole = buf.startswith("v:") and len(conv) == 1 and re.sub(r"\s", "", ty) == "[u8;%d]" % want and rules.every_ret_path_passes(fn, [conv[0].bb])
                 else:
                     whole = buf.startswith("v:") and pred.canon(fn.local_expr(0), fn) == buf
             else:
